@@ -51,6 +51,14 @@ OneCellPerRow(o, c2, w) == LET chg == Changed(o, c2) IN
   /\ Cardinality(chg) = o.cfg.rows
   /\ {RowOf(o.cfg, k) : k \in chg} = 1..o.cfg.rows
   /\ \A k \in chg : c2[k] = o.cells[k] + w
+\* rows are meant to use separate hash functions ("Generate _num_hashes separate hashes"; Cormode-Muthukrishnan): the learned
+\* buckets of an item over the rows must not form an arithmetic progression modulo buckets for EVERY item (as they would
+\* if row i used h1 + i * h2 with a bucket count dividing 2^64); judged once >= 8 items are learned, rows >= 4
+BucketAt(c, S, r) == (CHOOSE k \in S : RowOf(c, k) = r) - (r - 1) * c.buckets - 1
+Arith(c, S) == \A r \in 1..(c.rows - 2) :
+  (BucketAt(c, S, r + 1) + c.buckets - BucketAt(c, S, r)) % c.buckets = (BucketAt(c, S, r + 2) + c.buckets - BucketAt(c, S, r + 1)) % c.buckets
+RowsIndependent(c) ==
+  (c \in DOMAIN hloc /\ c.rows >= 4 /\ c.rows <= 16 /\ Cardinality(DOMAIN hloc[c]) >= 8) => \E x \in DOMAIN hloc[c] : ~Arith(c, hloc[c][x])
 MinOf(S) == CHOOSE v \in S : \A u \in S : v <= u
 BEst(o, x) == MinOf({o.cells[k] : k \in hloc[o.cfg][x]})
 BProbes(q, o) ==
@@ -107,6 +115,7 @@ TObs == IsEvent("Obs") /\ LET e == Log[l]  o == obj[e.id] IN
           /\ ProbesOK(e.q, o)
           /\ (IF Has(e, "cells") THEN Chk("doc-cells-stable", e.cells = o.cells) ELSE TRUE)
           /\ BProbes(e.q, o)
+          /\ (IF TierB THEN Chk("B:rows-not-affinely-related", RowsIndependent(o.cfg)) ELSE TRUE)
           /\ UNCHANGED <<obj, blob, hloc>>
 TCopy == IsEvent("Copy") /\ LET e == Log[l] IN
           /\ Copy(e.src, e.dst)
